@@ -597,6 +597,34 @@ func randomCases(w *world, r *prng.R, cases, nids int) {
 				w.opDecnil("parent")
 			}
 		})
+		// sessions are asked for again and again in changing order (cached sessions, "most recent" shortcuts):
+		// whatever the factory hands out for p must still be p's session
+		var have []string
+		for _, id := range ids {
+			if _, ok := w.records[id]; ok {
+				have = append(have, id)
+			}
+		}
+		if len(have) >= 2 {
+			a, b := have[r.Intn(len(have))], have[r.Intn(len(have))]
+			for _, seq := range [][]string{{a, b, a, a}, {b, b, a, b, b}} {
+				for _, id := range seq {
+					w.exec("open " + enc(id))
+				}
+				w.exec("own")
+				// the session must be the one of the id asked for last: it reads that id's stored record
+				// and no other id's
+				w.exec("dec " + enc(seq[len(seq)-1]))
+				w.exec("decall revisit")
+				other := a
+				if seq[len(seq)-1] == a {
+					other = b
+				}
+				if other != seq[len(seq)-1] {
+					w.exec("dec " + enc(other))
+				}
+			}
+		}
 		// cacheKey itself on ids/stamps around the ambiguities
 		for i := 0; i < 6; i++ {
 			id := ids[r.Intn(len(ids))]
